@@ -233,7 +233,7 @@ def run_loop(engine, st, stmt, ctl):
     if engine.feasible(s_it):
         iter_old = (dict(s_it.vars), dict(s_it.heap))
         ctl.begin(s_it)
-        for s2, oc in engine.exec_block(s_it, stmt.body):
+        for s2, oc in exec_body_with_cuts(engine, s_it, stmt, spec, k):
             if oc in ("normal", "continue"):
                 ctl.end(s2)
                 ctl.bind_head(s2)
@@ -253,6 +253,27 @@ def run_loop(engine, st, stmt, ctl):
                 outs.append((s2, "normal"))
             else:
                 outs.append((s2, oc))
+    return outs
+
+
+def exec_body_with_cuts(engine, st, stmt, spec, k):
+    if not spec.cuts:
+        return engine.exec_block(st, stmt.body)
+    states = [st]
+    outs = []
+    for si, sub in enumerate(stmt.body):
+        nxt = []
+        for s in states:
+            for j, fact in enumerate(spec.cuts.get(si, ())):
+                g = engine.eval_spec(s, fact)
+                engine.oblige(s, g, f"loop {k} cut before statement {si}, fact {j}: {fact}", "cut", sub)
+            for s2, oc in engine.exec_stmt(s, sub):
+                if oc == "normal":
+                    nxt.append(s2)
+                else:
+                    outs.append((s2, oc))
+        states = nxt
+    outs.extend((s, "normal") for s in states)
     return outs
 
 
